@@ -28,7 +28,7 @@ Pending == [k |-> "pending"]
 Init == scheme \in Schemes /\ path \in Paths /\ token \in Tokens /\ mime \in Mimes /\ out = Pending
 \* after the repair: a ';' inside the URL, the token or the media type is refused by upload() (it would be read as the start of
 \* the next parameter); DevUnescaped is the tree before it
-Semi == path = "semicolon" \/ token \in {"semicolon", "sizeInside", "space"} \/ mime = "param"      \* (or whitespace: "a b")
+Semi == path = "semicolon" \/ token \in {"semicolon", "sizeInside"} \/ mime = "param"
 Eval == /\ out = Pending
         /\ out' = IF scheme \in {"upper", "titanUpper"} THEN [k |-> "clientRefuses"]
                   ELSE IF Semi /\ ~DevUnescaped THEN [k |-> "clientRefuses"]
